@@ -1406,11 +1406,22 @@ def time_fn(
     # if t.utcoffset():
     #    t -= t.utcoffset()
 
-    t = parse_timestamp(ctx, fn_name, loc, dt)
-    if isinstance(t, str):
-        # return error message
-        return t
-    ret = format_with_wiki_timeformat(ctx, t, fmt)
+    try:
+        t = parse_timestamp(ctx, fn_name, loc, dt)
+        if isinstance(t, str):
+            # return error message
+            return t
+        ret = format_with_wiki_timeformat(ctx, t, fmt)
+    except (ValueError, OverflowError, OSError):
+        # dates that datetime or the platform cannot represent (year 1 in
+        # another time zone, "@" timestamps far out of range, ...)
+        ctx.warning(
+            "bad time syntax in {}: {!r}".format(fn_name, dt),
+            sortid="parserfns/1411",
+        )
+        return '<strong class="error">Bad time syntax: {}</strong>'.format(
+            html.escape(dt)
+        )
 
     return ret
 
